@@ -40,7 +40,7 @@ TECHNIQUE = "round-trip differential against the generator's own record of each 
 RULE = (
     "case = 1-4 HTTP flows exported together (half through make_har+json.dumps, half through the real export_har file writer), their request start times ascending, descending, shuffled, all equal or with ties "
     "relative to the exported order; each flow = method (8 incl. an extension method) x scheme/host/port/path pools "
-    "(queries, percent-encoding, non-default ports, explicit default port in Host, rare punycode host and IPv6 literal) x version (1.0, 1.1, 2.0, 3) x header "
+    "(queries, percent-encoding, non-default ports, rare punycode host and IPv6 literal) x Host/:authority form (consistent, absent, host, host:target port, host:other port, other host, other host:port; for h1 and h2/h3) x version (1.0, 1.1, 2.0, 3) x header "
     "multisets (duplicates, mixed case, empty and non-ASCII UTF-8 values, non-UTF-8 bytes in ~8%) x rare raw non-ASCII path bytes x request body (none/text/text not decodable in its charset/form/binary) x "
     "response status x body kind (empty, text in utf-8/latin-1/shift_jis/utf-16/undeclared, json, html, binary) x content coding "
     "(identity, gzip, deflate, br) on either side; distinct = (one / several flows, start-time order mode, coarse feature tuple of the first flow [method "
@@ -49,7 +49,7 @@ RULE = (
     "version, query"
 )
 ASSUMPTIONS = [
-    "the Host header / :authority of generated requests agrees with the request's host and port",
+    "about 70% of the generated requests have a Host header / :authority that agrees with the connection target; the rest use the forms {absent, host, host:target port, host:other port, other host, other host:port} (reverse proxy, DNAT, foreign authority). 'The URL' of an exchange is the URL the request names: scheme + Host/:authority (port = the authority's port, else the scheme's default) + path, and scheme + target host:port + path when there is no authority; the connection target itself is not part of a HAR file",
     "CONNECT and asterisk-form requests are outside the domain (they have no URL to preserve)",
     "flows without a response are generated rarely and only checked for request preservation, order and totality",
     "'decoded body' means the bytes after removing the content coding (Message.content)",
@@ -155,14 +155,41 @@ def gen_flow(r, idx, t0=None):
     version = r.choice(VERSIONS)
     h2 = version in ("HTTP/2.0", "HTTP/3")
     hostlit = f"[{host}]" if ipv6 else host
-    explicit_default = port == default_port and r.random() < 0.05
-    hostport = hostlit if (port == default_port and not explicit_default) else f"{hostlit}:{port}"
+    # ---- form of the Host header / :authority relative to the connection target (request.host, request.port)
+    # "consistent": names the target, port shown iff non-default.  The other forms occur behind reverse proxies / DNAT or
+    # with clients that name another authority: the authority is then what the request *names*, the target is where it went.
+    if ipv6 or host.startswith("xn--") or r.random() < 0.7:
+        host_form = "consistent" if r.random() >= 0.05 or port != default_port else "host:reqport"
+    else:
+        host_form = r.choice(["absent", "host", "host:reqport", "host:otherport", "otherhost", "otherhost:port"])
+    other_port = r.choice([p_ for p_ in (80, 443, 8080, 8443, 9000) if p_ != port])
+    if host_form == "consistent":
+        auth_host, auth_port = hostlit, (None if port == default_port else port)
+    elif host_form == "absent":
+        auth_host, auth_port = None, None
+    elif host_form == "host":
+        auth_host, auth_port = hostlit, None
+    elif host_form == "host:reqport":
+        auth_host, auth_port = hostlit, port
+    elif host_form == "host:otherport":
+        auth_host, auth_port = hostlit, other_port
+    elif host_form == "otherhost":
+        auth_host, auth_port = "other.example", None
+    else:
+        auth_host, auth_port = "other.example", r.choice([port, other_port])
+    hostport = None if auth_host is None else (auth_host if auth_port is None else f"{auth_host}:{auth_port}")
+    explicit_default = auth_port is not None and auth_port == default_port
+    # the URL the request names: authority if there is one (its port, else the scheme's default), else the target
+    named_host = auth_host if auth_host is not None else hostlit
+    named_port = port if auth_host is None else (auth_port if auth_port is not None else default_port)
+    named_url = f"{scheme}://{named_host}{'' if named_port == default_port else ':' + str(named_port)}{path}"
+    port_mismatch = auth_host is not None and named_port != port
 
-    feats = {"method": method if method in BODY_METHODS or method in ("GET", "HEAD") else "other", "version": version, "ipv6": ipv6, "port": port != default_port, "explicit_default_port": explicit_default, "query": "?" in path, "punycode": host.startswith("xn--"), "raw_path": raw_path}
+    feats = {"host_form": host_form, "authority_port_differs_from_target": port_mismatch, "method": method if method in BODY_METHODS or method in ("GET", "HEAD") else "other", "version": version, "ipv6": ipv6, "port": port != default_port, "explicit_default_port": explicit_default, "query": "?" in path, "punycode": host.startswith("xn--"), "raw_path": raw_path}
 
     # ---- request
     rh = []
-    if not h2 or r.random() < 0.3:
+    if hostport is not None and (not h2 or r.random() < 0.3):
         rh.append((b"Host" if r.random() < 0.5 else b"host", hostport.encode()))
     rh += r.sample(REQ_HDRS, r.randint(0, 5))
     latin1_req = r.random() < 0.08
@@ -185,7 +212,7 @@ def gen_flow(r, idx, t0=None):
         port,
         method.encode(),
         scheme.encode(),
-        hostport.encode() if h2 else b"",
+        hostport.encode() if (h2 and hostport is not None) else b"",
         path_b,
         version.encode(),
         http.Headers(rh),
@@ -200,7 +227,7 @@ def gen_flow(r, idx, t0=None):
     f.request = req
     exp = {
         "method": method,
-        "url": f"{scheme}://{hostport if (port != default_port) else hostlit}{path}",
+        "url": named_url,
         "version": version,
         "req_headers": rh,
         "req_plain": req_plain,
@@ -492,7 +519,7 @@ def sig_of(fe):
     """Coarse per-flow feature tuple."""
     flags = "".join(
         c
-        for c, k in (("6", "ipv6"), ("x", "punycode"), ("r", "raw_path"), ("d", "explicit_default_port"), ("L", "req_latin1"), ("M", "resp_latin1"))
+        for c, k in (("6", "ipv6"), ("x", "punycode"), ("r", "raw_path"), ("P", "port"), ("m", "authority_port_differs_from_target"), ("d", "explicit_default_port"), ("L", "req_latin1"), ("M", "resp_latin1"))
         if fe.get(k)
     )
     if fe.get("req_dup") or fe.get("resp_dup"):
@@ -502,6 +529,7 @@ def sig_of(fe):
     return (
         fe["method"],
         fe["version"],
+        fe["host_form"],
         fe["req_body"],
         fe["req_coding"],
         fe.get("resp"),
